@@ -141,3 +141,28 @@ def ctor_contracts():
     cs.append(Post('core._ArgValuator.__init__', cases=[
         Case('any', args={'self': 'inst:core._ArgValuator'}, ghosts={'k': 'ref'}, ensures=['k not in self.cache'])]))
     return cs
+
+
+def bounded_from_text(tier, seed):
+    """Path.from_text against the statement of the string spelling: 'a.b.c' denotes exactly the segments text.split('.') -- empty segments
+    included (leading / trailing / doubled dots, the empty string) -- with '*' / '**' segments (and only those) being the wildcard steps; the
+    string spelling and the explicit Path(...) spelling of the same segments are equal, before and after the cache has seen the text.
+    Bound: the catalogue below x 2 lookups each."""
+    import glom.core as gc
+    from glom import Path, T
+    texts = ['a', 'a.b', 'a.b.c', '', '.', 'a.', '.a', 'a..b', '..', 'a.b.', ' a. b', '0', 'a.0.-1', '*', '**', 'a.*', 'a.*.b', '**.a', 'a.**.*', '*a', 'a*.b', '***', 'a.* .b',
+             'x.X', 'x', 'X.a', 'a.x.0', 'é.ü', 'a b.c d']
+    cases, failures = 0, []
+    for text in texts:
+        want = []
+        for seg in text.split('.'):
+            want += [('x', None)] if seg == '*' else [('X', None)] if seg == '**' else [('P', seg)]
+        want = tuple(x for pair in want for x in pair)
+        for attempt in (1, 2):
+            cases += 1
+            got = gc.Path.from_text(text).path_t.__ops__[1:]
+            if got != want:
+                failures.append({'key': 'from-text', 'input': {'text': text, 'lookup': attempt}, 'observed': repr(got), 'expected': repr(want), 'replay_code': None})
+                break
+    return {'name': 'Path.from_text vs text.split(".") with wildcard segments', 'label': 'bounded', 'cases': cases, 'bound': '%d texts x 2 lookups' % len(texts),
+            'failures': failures}
